@@ -34,7 +34,7 @@ C10Bad(g, t, ln, jump) ==
        \cup (IF t.ev = "GameClosed" THEN {"C10.showdown:" \o nm : nm \in EngineC02(t)} ELSE {})
 Call(ln) == [op |-> ln.op, seat |-> ln.seat, x |-> ln.x, ok |-> ln.err = ""]
 Bump(c, S) == [k \in (DOMAIN c) \cup S |-> (IF k \in DOMAIN c THEN c[k] ELSE 0) + (IF k \in S THEN 1 ELSE 0)]
-AddViol(v, line, names) == IF Cardinality(v) >= MaxViol THEN v ELSE v \cup {<<line, nm>> : nm \in names}
+AddViol(v, line, names) == v \cup {<<line, nm>> : nm \in {x \in names : Cardinality({w \in v : w[2] = x}) < MaxViol}}   \* at most MaxViol entries PER CLAUSE: a flood of one clause (a known finding) never hides another
 
 Init == /\ l = 1
         /\ gs = LineGs(Trace[1], <<>>)
